@@ -80,6 +80,15 @@ def gen(seed, tier):
         ops.append(['ASSERT', False, rng.choice(('fact', 'query', 'wrapv', 'inline')), [['v', x]]])
         for _ in range(rng.randrange(0, len(pre) + 1)):
             ops.append(['POP', rng.choice(('close', 'drop', 'resume'))])
+    if rng.random() < 0.15:
+        # same-fact focus: one fact with a repeated variable, used by several independent uses with different
+        # ground arguments (one suspended, one started and finished meanwhile, a third started afterwards ...)
+        ops.append(['ASSERT', False, rng.choice(('fact', 'query', 'wrapv')), [['v', 0], ['v', 0]]])
+        for _ in range(rng.randrange(3, 9)):
+            if rng.random() < 0.5:
+                ops.append(['IUSE', rng.choice('qqqr'), [['a', rng.choice('abc')], ['v', 100]]])
+            else:
+                ops.append(['ISTEP', rng.randrange(3)])
     for _ in range(rng.randrange(2, 22)):
         k = rng.random()
         if k < 0.05:
